@@ -50,7 +50,8 @@ pub enum Delay {
 #[derive(Clone, Debug, Serialize, Deserialize)]
 pub enum Step {
     Schedule { k: usize, delay: Delay, by: usize, signed: bool },
-    Execute { k: usize, by: usize, signed: bool },
+    /// anon: execute_op(…, executor = None) — nobody is named (allowed only while no executor is configured)
+    Execute { k: usize, by: usize, signed: bool, #[serde(default)] anon: bool },
     Cancel { k: usize, by: usize, signed: bool },
     SetMinDelay { d: u32, by: usize, signed: bool },
     SetTrap { on: bool },
@@ -126,9 +127,9 @@ impl Model {
                 self.st[k] = S::Pending(self.now.saturating_add(d));
                 true
             }
-            Step::Execute { k, by, signed } => {
-                // whenever any executor is configured, the caller must hold the role and authorize
-                if !self.roles[2].is_empty() && (!signed || !self.roles[2].contains(&by)) {
+            Step::Execute { k, by, signed, anon } => {
+                // whenever any executor is configured, the caller must name itself, hold the role and authorize
+                if !self.roles[2].is_empty() && (anon || !signed || !self.roles[2].contains(&by)) {
                     return false;
                 }
                 let _ = cfg;
@@ -216,7 +217,7 @@ impl Check for ControllerExt {
                 25..=54 => {
                     // prefer ops that are pending
                     let pend: std::vec::Vec<usize> = (0..nops).filter(|i| matches!(m.st[*i], S::Pending(_))).collect();
-                    Step::Execute { k: if !pend.is_empty() && rng.chance(80) { *rng.pick(&pend) } else { k }, by: if rng.chance(85) { m.roles[2].iter().next().cloned().unwrap_or(2) } else { rng.below(4) as usize }, signed: !rng.chance(8) }
+                    Step::Execute { k: if !pend.is_empty() && rng.chance(80) { *rng.pick(&pend) } else { k }, by: if rng.chance(85) { m.roles[2].iter().next().cloned().unwrap_or(2) } else { rng.below(4) as usize }, signed: !rng.chance(8), anon: rng.chance(8) }
                 }
                 55..=62 => Step::Cancel { k, by: if rng.chance(70) { m.roles[1].iter().next().cloned().unwrap_or(1) } else if rng.chance(50) { m.roles[0].iter().next().cloned().unwrap_or(1) } else { rng.below(4) as usize }, signed: !rng.chance(8) },
                 63..=68 => Step::SetMinDelay { d: match rng.below(4) { 0 => 0, 1 => u32::MAX, _ => rng.below(40) as u32 }, by: if rng.chance(85) { 0 } else { rng.below(4) as usize }, signed: !rng.chance(8) },
@@ -316,9 +317,10 @@ impl Check for ControllerExt {
                     }
                     ("schedule", r.is_ok())
                 }
-                Step::Execute { k, by, signed } => {
+                Step::Execute { k, by, signed, anon } => {
                     let o = &ops[*k];
-                    let ex = if !m.roles[2].is_empty() || *signed { Some(a(*by)) } else { None };
+                    let ex = if !*anon && (!m.roles[2].is_empty() || *signed) { Some(a(*by)) } else { None };
+                    if *anon && !m.roles[2].is_empty() { st.hit("probe.execute_naming_nobody_while_executors_exist"); }
                     if *signed { w.set_auth(&[(*by, Inv::new(&id, "execute_op", (o.target.clone(), o.function.clone(), o.args.clone(), o.predecessor.clone(), o.salt.clone(), ex.clone()).into_val(e)))]); }
                     ("execute", c.try_execute_op(&o.target, &o.function, &o.args, &o.predecessor, &o.salt, &ex).is_ok())
                 }
@@ -344,7 +346,7 @@ impl Check for ControllerExt {
                 let role_reason = match *s {
                     Step::Schedule { by, signed, .. } => !signed || !snap_roles[0].contains(&by),
                     Step::Cancel { by, signed, .. } => !signed || !snap_roles[1].contains(&by),
-                    Step::Execute { by, signed, .. } => !snap_roles[2].is_empty() && (!signed || !snap_roles[2].contains(&by)),
+                    Step::Execute { by, signed, anon, .. } => !snap_roles[2].is_empty() && (anon || !signed || !snap_roles[2].contains(&by)),
                     Step::Role { signed, .. } => !signed,
                     Step::SetMinDelay { by, signed, .. } => !signed || by != 0,
                     _ => false,
